@@ -388,6 +388,10 @@ def domain_case(case):
         if ctx.get('sam') is not None and np.any(~np.any(ctx['sam'], axis=-2)):
             # the source-activity mask declares every source inactive for some observation
             rec['fp'] += ';all_inactive_observations'
+        if ctx.get('sam') is not None and np.ndim(ctx['init']) >= 2 and \
+                np.any(np.sum(np.broadcast_to(ctx['init'], ctx['sam'].shape) * ctx['sam'], axis=-2) == 0):
+            # the mask switches off every class the initialisation gives mass to at some observation
+            rec['fp'] += ';mask_contradicts_init'
         if 'complex_bingham' in getattr(ctx['model'], '__dataclass_fields__', {}):
             lam = np.asarray(ctx['model'].complex_bingham.covariance_eigenvalues)
             mx = lam.max(-1)
